@@ -295,7 +295,7 @@ func c08BulkGenesis(e *domEnv) func(gs map[string]json.RawMessage, cdc codec.Cod
 		docs := bulkDIDs(e.DidKey, 120)
 		i := 0
 		for _, k := range sortedKeys(docs) {
-			if i%17 == 16 {
+			if i%17 == 16 || i == len(docs)-1 {
 				docs[k] = &didtypes.DIDDocumentWithSeq{Document: &didtypes.DIDDocument{}, Sequence: 2} // tombstone
 			}
 			i++
@@ -315,7 +315,16 @@ func c08BulkGenesis(e *domEnv) func(gs map[string]json.RawMessage, cdc codec.Cod
 			}
 			dn := fmt.Sprintf("den%03d", i)
 			pg.Denoms = append(pg.Denoms, &pnfttypes.Denom{Id: dn, Name: "n", Symbol: "S", Owner: owner.Bech})
-			pg.Pnfts = append(pg.Pnfts, &pnfttypes.Pnft{DenomId: dn, Id: "t", Name: "tok", Creator: owner.Bech, Owner: e.W.Bech, CreatedAt: world.BaseTime})
+			created := world.BaseTime
+			switch i {
+			case 3: // creation times that do not fit a 64-bit nanosecond count (a chain whose clock runs far ahead, a migrated record)
+				created = time.Date(2300, 1, 2, 3, 4, 5, 600700800, time.UTC)
+			case 4:
+				created = time.Date(1600, 6, 7, 8, 9, 10, 11, time.UTC)
+			case 5:
+				created = time.Date(9999, 12, 31, 23, 59, 59, 999999999, time.UTC)
+			}
+			pg.Pnfts = append(pg.Pnfts, &pnfttypes.Pnft{DenomId: dn, Id: "t", Name: "tok", Creator: owner.Bech, Owner: e.W.Bech, CreatedAt: created})
 		}
 		// one topic with a two-digit number of records (offsets 0..11 in the string keys of the exported genesis)
 		ag.Owners[e.A.Bech].TotalTopics++
@@ -339,6 +348,38 @@ func C08(t Tier) int {
 	for _, base := range []string{"empty", "populated", "bulk"} {
 		sys := c08System(base)
 		RunGraph(run, sys, []explore.Bounds{{Depth: depth[base], V: 1, Deadline: deadline(t, 90*time.Second, 8*time.Minute)}}, 4)
+	}
+	// import fidelity: what the chain holds after starting from the bulk genesis is what that genesis file says (an import that
+	// rewrites values would otherwise export and re-import its own rewriting consistently)
+	{
+		e := newDomEnv()
+		w := world.New(world.Options{Accounts: []*world.Account{e.A, e.B, e.W, e.F}, Mutate: c08BulkGenesis(e)})
+		gs := map[string]json.RawMessage{}
+		c08BulkGenesis(e)(gs, w.App.AppCodec())
+		var pg pnfttypes.GenesisState
+		w.App.AppCodec().MustUnmarshalJSON(gs["pnft"], &pg)
+		checked := 0
+		for _, want := range pg.Pnfts {
+			got, err := w.App.PnftKeeper.GetPNFT(w.Ctx(), want.DenomId, want.Id)
+			checked++
+			if err != nil || got == nil {
+				run.Add(report.Viol{Kind: "import-differs", Sig: "import-differs:pnft-missing", Msg: fmt.Sprintf("token %s/%s of the genesis file is not on the chain: %v", want.DenomId, want.Id, err), Replay: map[string]any{"check": "C08", "case": "bulk genesis fidelity"}})
+				break
+			}
+			if !got.CreatedAt.Equal(want.CreatedAt) || got.Owner != want.Owner || got.Creator != want.Creator || got.Name != want.Name || got.Description != want.Description || got.Uri != want.Uri || got.UriHash != want.UriHash || got.Data != want.Data {
+				run.Add(report.Viol{Kind: "import-differs", Sig: "import-differs:pnft", Msg: fmt.Sprintf("token %s/%s: the genesis file says %v, the chain holds %v", want.DenomId, want.Id, want, got), Replay: map[string]any{"check": "C08", "case": "bulk genesis fidelity"}})
+				break
+			}
+		}
+		for _, want := range pg.Denoms {
+			got, err := w.App.PnftKeeper.GetDenom(w.Ctx(), want.Id)
+			checked++
+			if err != nil || got == nil || got.Owner != want.Owner || got.Name != want.Name || got.Symbol != want.Symbol || got.Data != want.Data {
+				run.Add(report.Viol{Kind: "import-differs", Sig: "import-differs:denom", Msg: fmt.Sprintf("denom %s: the genesis file says %v, the chain holds %v (%v)", want.Id, want, got, err), Replay: map[string]any{"check": "C08", "case": "bulk genesis fidelity"}})
+				break
+			}
+		}
+		run.Coverage["bulk_genesis_entries_compared_with_chain"] = checked
 	}
 	run.Assumptions = []string{
 		"alphabet: the valid, state-shaping subset of the AOL, DID and PNFT alphabets (transferred token, handed-over denom, deleted and re-created denom, deactivated DID, rich DID document, empty record key/value, '/' and JSON in record bytes, writer deleted and re-added)",
